@@ -104,4 +104,4 @@ theorem rollback_restores (rootOf : KV K V → R) (n : Nat) (s : St K V R) (hi :
     simp [rollback, hne, hlt]
 
 end NomtApi
-#print axioms NomtApi.rollback_restores
+
